@@ -368,12 +368,16 @@ func (p *ParametersLiteral) UnmarshalJSON(b []byte) (err error) {
 		if err != nil {
 			return err
 		}
+	} else {
+		p.Xs = nil
 	}
 	if pl.Xe != nil {
 		p.Xe, err = ring.ParametersFromMap(pl.Xe)
 		if err != nil {
 			return err
 		}
+	} else {
+		p.Xe = nil
 	}
 	p.RingType = pl.RingType
 	p.LogDefaultScale = pl.LogDefaultScale
